@@ -12,7 +12,7 @@ use std::rc::Rc;
 pub const DEF: PropDef = PropDef {
     id: "C20",
     level: "exploration",
-    rule: "a corpus of programs (succeeding, failing at parse time on various lines, failing at run time after k lines of output, reading input, printing multi-line strings, building dictionaries) x 5 standard-input contents (empty, one line, several lines, no final newline, non-ASCII) x sub-commands exec (separate pipes and stdout+stderr merged into one pipe), lint, parse; plus usage errors (unknown sub-command, missing argument, missing file, directory as file) and dictionary programs run as separate processes under 8 hash seeds (LD_PRELOAD getrandom shim); oracle: the binary's stdout / stderr equal what the library's cli::exec::run_using, cli::linter::run and cli::parser::run produce for the same text and input, errors go to stderr with their prefix, on the merged pipe the error line comes after all output, usage errors exit non-zero; non-trivial = every case (a process is spawned and compared); distinct = distinct (program, input, mode)",
+    rule: "a corpus of programs (succeeding, failing at parse time on various lines, failing at run time after k lines of output, reading input, printing multi-line strings, building dictionaries) x 5 standard-input contents (empty, one line, several lines, no final newline, non-ASCII) x sub-commands exec (separate pipes and stdout+stderr merged into one pipe), lint, parse; plus usage errors (unknown sub-command, missing argument, missing file, directory as file) and dictionary programs run as separate processes under 8 hash seeds (LD_PRELOAD getrandom shim); oracle (independent of src/cli): stdout equals what frontend::parser::parse + exec::exec_using write for the same text and input; `parse` prints the pretty Debug tree of the library's parse; `lint` prints one line per library diagnostic (its line and issue) followed by one tab-indented line per suggestion and nothing else; errors go to stderr as `<prefix naming parse/runtime>: <library message>`, on the merged pipe the error line comes after all output, usage errors exit non-zero; non-trivial = every case (a process is spawned and compared); distinct = distinct (program, input, mode)",
     assumptions: &["NO_COLOR=1 for both sides", "exit status after parse / runtime errors and with no arguments at all is observed and reported, not judged (the property does not state it)", "the binaries are rebuilt from /repo by ./check before the run"],
     build,
     exhaustive: true,
@@ -56,6 +56,12 @@ fn corpus_programs(tier: Tier) -> (Vec<String>, usize) {
             "put \"s\" into x\nlet x at 0 be 1\n", "roll 5\n", "build x up\n", "say it\n", "fun takes k\nsay k\n\nfun taking 1, 2\n", "put \"0\" into x\ncast x with 1\n", "let x at 1e30 be 1\n", "turn up \"s\"\n",
         ] {
             v.push(format!("{}{}say 99\n", pre, e));
+        }
+    }
+    // assignments of constants (lint diagnostics with and without suggestions)
+    for rhs in ["0 - 5", "-5", "-0", "1 over 0", "0 over 0", "\"a\nb\"", "5", "\"a b\"", "105.25", "y"] {
+        for form in ["put E into x\n", "let x be E\nsay x\n", "x is E\n", "rock x with E\nsay x at 0\n", "if true\nput E into the zed\n\nput E into Zed Yod\nput E into it\n"] {
+            v.push(form.replace('E', rhs));
         }
     }
     // say / listen programs
@@ -167,32 +173,104 @@ pub fn spawn(args: &[&str], stdin: &[u8], merged: bool, seed: Option<u64>) -> st
     Ok(Spawned { stdout: oh.join().unwrap_or_default(), stderr: eh.join().unwrap_or_default(), code, timed_out })
 }
 
-/// what the library says: (stdout, stderr)
-fn library(mode: &Mode, src: &str) -> (Vec<u8>, Vec<u8>) {
+/// What the library (not the cli module) says about a text: expected stdout, and the error if any.
+pub enum LibErr {
+    None,
+    Parse(String),
+    Runtime(String),
+}
+
+pub struct Expect {
+    pub stdout: Vec<u8>,
+    pub err: LibErr,
+    /// lint mode: the diagnostics (line, issue, suggestions) the binary must print, in order
+    pub diags: Option<Vec<(u32, String, Vec<String>)>>,
+}
+
+fn library(mode: &Mode, src: &str) -> Expect {
+    let prog = match rrss::frontend::parser::parse(src) {
+        Ok(p) => p,
+        Err(e) => return Expect { stdout: Vec::new(), err: LibErr::Parse(e.to_string()), diags: None },
+    };
     match mode {
-        Mode::Exec(i, _) => library_exec(src, STDINS[*i]),
-        Mode::Seeded(_) => library_exec(src, b""),
-        Mode::Lint => match rrss::cli::linter::run(src) {
-            Ok(o) => (format!("{}", o).into_bytes(), Vec::new()),
-            Err(e) => (Vec::new(), format!("{}\n", e).into_bytes()),
-        },
-        Mode::Parse => match rrss::cli::parser::run(src) {
-            Ok(o) => (format!("{}", o).into_bytes(), Vec::new()),
-            Err(e) => (Vec::new(), format!("{}\n", e).into_bytes()),
-        },
+        Mode::Exec(..) | Mode::Seeded(_) => {
+            let input: &[u8] = if let Mode::Exec(i, _) = mode { STDINS[*i] } else { b"" };
+            let mut out = Vec::new();
+            let r = rrss::exec::exec_using(input, &mut out, &prog);
+            Expect { stdout: out, err: r.map_or_else(|e| LibErr::Runtime(e.to_string()), |_| LibErr::None), diags: None }
+        }
+        Mode::Lint => {
+            let r = rrss::linter::standard_linter().run(&prog);
+            Expect { stdout: Vec::new(), err: LibErr::None, diags: Some(r.diags.iter().map(|d| (d.line, d.issue.clone(), d.suggestions.clone())).collect()) }
+        }
+        Mode::Parse => Expect { stdout: format!("{:#?}\n", prog).into_bytes(), err: LibErr::None, diags: None },
     }
 }
 
-fn library_exec(src: &str, input: &[u8]) -> (Vec<u8>, Vec<u8>) {
-    let mut out = Vec::new();
-    let r = rrss::cli::exec::run_using(input, &mut out, src);
-    match r {
-        Ok(o) => {
-            out.extend_from_slice(format!("{}", o).as_bytes());
-            (out, Vec::new())
-        }
-        Err(e) => (out, format!("{}\n", e).into_bytes()),
+/// stderr must be `<prefix naming the kind>: <library message>\n`
+fn check_stderr(err: &LibErr, stderr: &[u8]) -> Result<(), String> {
+    let (kind, msg) = match err {
+        LibErr::None => return if stderr.is_empty() { Ok(()) } else { Err(format!("nothing should be written to standard error, got {:?}", lossy(stderr))) },
+        LibErr::Parse(m) => ("parse", m),
+        LibErr::Runtime(m) => ("runtime", m),
+    };
+    let text = String::from_utf8_lossy(stderr);
+    let tail = format!("{}\n", msg);
+    if !text.ends_with(&tail) {
+        return Err(format!("standard error should end with the library's message {:?}, got {:?}", msg, lossy(stderr)));
     }
+    let prefix = &text[..text.len() - tail.len()];
+    if prefix.is_empty() || !prefix.to_lowercase().contains(kind) || prefix.contains('\n') {
+        return Err(format!("the {} error should be prefixed as such on one line; prefix is {:?}", kind, prefix));
+    }
+    Ok(())
+}
+
+/// lint output: one line per diagnostic naming its line and issue, then one tab-indented line per
+/// suggestion, nothing else; wording around them is not pinned
+fn check_lint_stdout(diags: &[(u32, String, Vec<String>)], stdout: &[u8]) -> Result<(), String> {
+    let text = String::from_utf8_lossy(stdout);
+    if diags.is_empty() {
+        return if text.contains("(line ") { Err(format!("no diagnostic is due but the output mentions a line: {:?}", lossy(stdout))) } else { Ok(()) };
+    }
+    let mut lines = text.split('\n').peekable();
+    for (line, issue, sugs) in diags {
+        // an issue may itself span lines (values are quoted verbatim)
+        let first = lines.next().unwrap_or("");
+        let mut head = first.to_string();
+        let mut need = issue.matches('\n').count();
+        while need > 0 {
+            head.push('\n');
+            head.push_str(lines.next().unwrap_or(""));
+            need -= 1;
+        }
+        if !head.contains(&format!("(line {})", line)) || !head.contains(issue.as_str()) {
+            return Err(format!("expected a line for the diagnostic (line {}) {:?}, got {:?}", line, issue, head));
+        }
+        for s in sugs {
+            let mut got = lines.next().unwrap_or("").to_string();
+            let mut need = s.matches('\n').count();
+            while need > 0 {
+                got.push('\n');
+                got.push_str(lines.next().unwrap_or(""));
+                need -= 1;
+            }
+            if got != format!("\t{}", s) {
+                return Err(format!("expected the suggestion line {:?}, got {:?}", format!("\t{}", s), got));
+            }
+        }
+        let remaining = lines.clone().count();
+        if let Some(next) = lines.peek() {
+            if next.starts_with('\t') || (next.is_empty() && remaining > 1) {
+                return Err(format!("unexpected extra line {:?} after the diagnostic on line {}", next, line));
+            }
+        }
+    }
+    let rest: Vec<&str> = lines.filter(|l| !l.is_empty()).collect();
+    if !rest.is_empty() {
+        return Err(format!("unexpected extra output {:?}", rest));
+    }
+    Ok(())
 }
 
 fn lossy(b: &[u8]) -> String {
@@ -249,7 +327,7 @@ impl Check for C20 {
             Mode::Parse => ("parse", b"", false, None),
             Mode::Seeded(s) => ("exec", b"", false, Some(*s)),
         };
-        let (want_out, want_err) = library(&mode, src);
+        let want = library(&mode, src);
         let s = match spawn(&[sub, &path_s], stdin, merged, seed) {
             Ok(s) => s,
             Err(e) => {
@@ -260,7 +338,11 @@ impl Check for C20 {
         ctx.observe(&s.stdout);
         ctx.observe(&s.stderr);
         ctx.count(&format!("exit_status.{:?}", s.code));
-        ctx.count(if want_err.is_empty() { "library.ok" } else if want_err.starts_with(b"Parse error") { "library.parse_error" } else { "library.runtime_error" });
+        ctx.count(match want.err {
+            LibErr::None => "library.ok",
+            LibErr::Parse(_) => "library.parse_error",
+            LibErr::Runtime(_) => "library.runtime_error",
+        });
         if s.timed_out {
             ctx.violation("hang", format!("`rrss {} FILE` did not terminate within 30 s — program {:?}", sub, src));
             return;
@@ -269,22 +351,30 @@ impl Check for C20 {
             ctx.violation("crash", format!("`rrss {} FILE` was killed by a signal — program {:?} stderr {:?}", sub, src, lossy(&s.stderr)));
             return;
         }
-        if !want_err.is_empty() && !(want_err.starts_with(b"Parse error: ") || want_err.starts_with(b"Runtime error: ")) {
-            ctx.violation("error-prefix", format!("the library's error is not prefixed as a parse or runtime error: {:?}", lossy(&want_err)));
-        }
-        if merged {
-            let mut want = want_out.clone();
-            want.extend_from_slice(&want_err);
-            if s.stdout != want {
-                ctx.violation("cli-differs", format!("`rrss {} FILE 2>&1`: expected {:?} (output, then the error), got {:?} — program {:?} stdin {:?}", sub, lossy(&want), lossy(&s.stdout), src, lossy(stdin)));
+        let (got_out, got_err): (Vec<u8>, Vec<u8>) = if merged {
+            // everything arrives on one pipe: the output must come first, the error line last
+            if !s.stdout.starts_with(&want.stdout) {
+                ctx.violation("cli-differs", format!("`rrss {} FILE 2>&1`: the merged stream should start with the program's output {:?}, got {:?} — program {:?}", sub, lossy(&want.stdout), lossy(&s.stdout), src));
+                return;
             }
+            (want.stdout.clone(), s.stdout[want.stdout.len()..].to_vec())
         } else {
-            if s.stdout != want_out {
-                ctx.violation("cli-differs", format!("`rrss {} FILE` stdout: library gives {:?}, binary printed {:?} — program {:?} stdin {:?} seed {:?}", sub, lossy(&want_out), lossy(&s.stdout), src, lossy(stdin), seed));
+            (s.stdout.clone(), s.stderr.clone())
+        };
+        match &want.diags {
+            Some(d) if matches!(want.err, LibErr::None) => {
+                if let Err(m) = check_lint_stdout(d, &got_out) {
+                    ctx.violation("cli-differs", format!("`rrss lint FILE`: {} — full output {:?} — program {:?}", m, lossy(&got_out), src));
+                }
             }
-            if s.stderr != want_err {
-                ctx.violation("cli-differs", format!("`rrss {} FILE` stderr: library gives {:?}, binary printed {:?} — program {:?}", sub, lossy(&want_err), lossy(&s.stderr), src));
+            _ => {
+                if got_out != want.stdout {
+                    ctx.violation("cli-differs", format!("`rrss {} FILE` stdout: library gives {:?}, binary printed {:?} — program {:?} stdin {:?} seed {:?}", sub, lossy(&want.stdout), lossy(&got_out), src, lossy(stdin), seed));
+                }
             }
+        }
+        if let Err(m) = check_stderr(&want.err, &got_err) {
+            ctx.violation("cli-differs", format!("`rrss {} FILE`: {} — program {:?}", sub, m, src));
         }
     }
     fn static_coverage(&self) -> Value {
